@@ -3,9 +3,11 @@
 mod explore;
 mod report;
 mod util;
+mod workers;
 
 mod bringup;
 mod c01;
+mod c02;
 mod c03;
 mod c04;
 mod c05;
@@ -77,6 +79,7 @@ fn main() {
     // A panic inside the *machinery* (not inside a guarded call into the subject) is a machinery failure.
     let r = std::panic::catch_unwind(|| match id.as_str() {
         "C01" => c01::main(&args),
+        "C02" => c02::main(&args),
         "C03" => c03::main(&args),
         "C04" => c04::main(&args),
         "C05" => c05::main(&args),
